@@ -478,6 +478,28 @@ def boundsOKL : List J → Bool
   | x :: r => boundsOK x && boundsOKL r
 end
 
+mutual
+/-- no version annotation sits beside a `$ref`: reference expansion replaces the whole object by its referent, so a
+`minVersion` / `maxVersion` written there would silently never be honoured -/
+def noBoundsOnRef : J → Bool
+  | .dict kvs =>
+    (match refOfFields kvs, lookup metaKey kvs with
+     | some _, some (.dict md) => !(hasKey minKey md || hasKey maxKey md)
+     | _, _ => true) && noBoundsOnRefF kvs
+  | .list xs => noBoundsOnRefL xs
+  | _ => true
+def noBoundsOnRefF : Fields → Bool
+  | [] => true
+  | (_, x) :: r => noBoundsOnRef x && noBoundsOnRefF r
+def noBoundsOnRefL : List J → Bool
+  | [] => true
+  | x :: r => noBoundsOnRef x && noBoundsOnRefL r
+end
+
+/-- **C09_files_annotations_effective** — in the regenerated schema folder every version annotation sits where the filter
+can see it (never beside a `$ref`, where jsonref drops it) -/
+theorem C09_files_annotations_effective : ∀ f ∈ Gen.files, noBoundsOnRef f.2 = true := by decide +kernel
+
 /-- every `metadata` entry is a dict and its minVersion / maxVersion are decimal numbers the model reads exactly -/
 theorem C09_files_bounds : ∀ f ∈ Gen.files, boundsOK f.2 = true := by decide +kernel
 
